@@ -63,11 +63,20 @@ def r1(ctx):
     f = ctx.fn(repo.func(ARB + ".stop"))
     g = f.cfg
     cs = calls_to(repo, f, "gunicorn.sock.close_sockets")
-    kw = calls_to(repo, f, ARB + ".kill_workers")
+    # "signal every worker": kill_workers(sig), or its body `for pid in <WORKERS>: kill_worker(pid, sig)` in place
+    kw = sorted(calls_to(repo, f, [ARB + ".kill_workers", ARB + ".kill_worker"]), key=lambda c: c._ord)
     ctx.need(cs, "C04.R1: stop() does not call sock.close_sockets")
-    ctx.need(len(kw) >= 2, "C04.R1: stop() must call kill_workers at least twice (signal, then SIGKILL)")
+    ctx.need(len(kw) >= 2, "C04.R1: stop() must signal the workers at least twice (stop signal, then SIGKILL)")
     first, last = kw[0], kw[-1]
-    fn = nodes_with(f, first)
+
+    def site_nodes(c):
+        """the statement that stands for 'all workers are signalled': the call, or the loop over WORKERS around it"""
+        lp = f.module.enclosing(c, ast.For)
+        if lp is not None and "WORKERS" in norm(lp.iter):
+            return [n for n in g.nodes_of(lp) if n.kind == "for"]
+        return nodes_with(f, c)
+    fn = site_nodes(first)
+    fcall = nodes_with(f, first)
     ctx.check("C04.R1", all(any(g.dominates(a, b, follow_exc=False) for c in cs for a in nodes_with(f, c)) for b in fn), key(f, "listeners-first"), site(f, first),
               "workers are signalled before the listening sockets are closed (new connections would still be accepted into dying workers)", "close_sockets before kill_workers")
     ctx.check("C04.R1", bool(cs[0].args) and tail(cs[0].args[0]) == "LISTENERS", key(f, "closes-LISTENERS"), site(f, cs[0]), "close_sockets is not applied to self.LISTENERS", "closes LISTENERS")
@@ -75,13 +84,13 @@ def r1(ctx):
     GR = f.params[1]
     for gr in (True, False):
         ex = Explorer(f)
-        probes = {n.id: ("sig", lambda e, env, c=first: e.ev(c.args[0], env)) for n in fn}
+        probes = {n.id: ("sig", lambda e, env, c=first: e.ev(c.args[-1], env)) for n in fcall}
         outs = ex.run(g.entry, {GR: gr}, probes=probes)
         sigs = set(ev[1] for o in outs for ev in o.events if isinstance(ev, tuple) and ev[0] == "sig")
         want = "@signal.SIGTERM" if gr else "@signal.SIGQUIT"
         ctx.check("C04.R1", sigs == {want}, key(f, "signal|graceful=%s" % gr), site(f, first), "stop(graceful=%s) sends %s, required %s" % (gr, sorted(map(str, sigs)), want[1:]), want[1:])
     # final SIGKILL on every normal path
-    ln = [n for n in nodes_with(f, last) if "SIGKILL" in norm(last)]
+    ln = [n for n in site_nodes(last) if "SIGKILL" in norm(last)]
     p = g.must_pass(g.entry, ln, follow_exc=False) if ln else [g.entry]
     ctx.check("C04.R1", bool(ln) and p is None, key(f, "final-kill"), site(f, last), "stop() can return without kill_workers(SIGKILL): a worker that ignores the signal would survive the master",
               "SIGKILL on every path", path=p and g.fmt_path(p))
@@ -97,7 +106,7 @@ def r1(ctx):
         bounded = any(isinstance(c, ast.Compare) and (names(c) & bound_names) and "time" in norm(c) for c in conj)
         ctx.check("C04.R1", bounded, key(f, "bounded-wait"), site(f, w.test), "the wait for workers is not bounded by cfg.graceful_timeout (a hung worker would block shutdown forever)",
                   "while WORKERS and time < limit(graceful_timeout)")
-        kn = nodes_with(f, first)
+        kn = fn
         head = [n for n in g.nodes_of(w) if n.kind == "join"][0]
         ctx.check("C04.R1", all(g.dominates(k, head, follow_exc=False) for k in kn) and all(g.dominates(head, l, follow_exc=False) for l in ln), key(f, "wait-between"), site(f, w.test),
                   "the wait loop is not between the stop signal and the final SIGKILL", "signal < wait < SIGKILL")
